@@ -94,7 +94,8 @@ def pool(field):
     if field == "url_schemes":
         return [(["http"], V), (("http", "x"), V), ({"http": None}, V), ({"x": "https://e/{{path}}"}, V), ({"x": {"url": "u", "title": "t", "classes": ["c"]}}, V), ({}, V), ([], V), ({"x": {}}, V),
                 (["http", 1], I), ("http", I), (None, I), (5, I), ({1: None}, I), ({"x": 5}, I), ({"x": {"url": 1}}, I), ({"x": {"title": 2}}, I), ({"x": {1: "a"}}, I), ({"x": {"classes": "c"}}, I), ({"x": {"classes": [1]}}, I),
-                ({"x": ["u"]}, I)]
+                ({"x": ["u"]}, I), ({"x": {"url": None}}, I), ({"x": {"url": "u", "title": None}}, I), ({"x": {"url": "u", "classes": None}}, I), ({"x": {"url": "u", "classes": ["c", None]}}, I), ({"x": {"url": b"u"}}, I), ({"x": 0}, I),
+                ({"x": False}, I), ({"x": ""}, V)]
     if field == "html_meta":
         return [({}, V), ({"a": "b"}, V), ({"description lang=en": "d"}, V), ({"a": 1}, I), ({1: "a"}, I), ([], I), ("x", I), (None, I), ({"a": None}, I)]
     if field == "substitutions":
